@@ -79,7 +79,7 @@ def worker(job):
         bo = decode_balance_result(prog, rb)
         mdl = lambda: it.model_ if it.feasible() else None
         if uo['ok'] != bo['ok']:
-            cands.add(kernel='b', role='one-endpoint-errs-the-other-answers', ts=ts, model=mdl(), c=c.t, utxos=str(uo), balance=str(bo),
+            cands.add(kernel='b', role='one-endpoint-errs-the-other-answers', stable_height=sh.t, ts=ts, model=mdl(), c=c.t, utxos=str(uo), balance=str(bo),
                       addr_outcome=it.globals.get('addr_outcome'))
             return
         if not uo['ok']:
@@ -87,19 +87,19 @@ def worker(job):
             pairs = {'MalformedAddress': 'MalformedAddress', 'AddressForWrongNetwork': 'AddressForWrongNetwork',
                      'MinConfirmationsTooLarge': 'MinConfirmationsTooLarge'}
             if pairs.get(uo['err']) != bo['err']:
-                cands.add(kernel='b', role='different-errors', ts=ts, model=mdl(), c=c.t, utxos=uo['err'], balance=bo['err'])
+                cands.add(kernel='b', role='different-errors', stable_height=sh.t, ts=ts, model=mdl(), c=c.t, utxos=uo['err'], balance=bo['err'])
                 return
             if uo['err'] == 'MinConfirmationsTooLarge':
                 m = check_unsat(it, rep, z3.Or(zterm(uo['fields'][0]) != zterm(bo['fields'][0]), zterm(uo['fields'][1]) != zterm(bo['fields'][1])))
                 if m is not None:
-                    cands.add(kernel='b', role='too-large-error-fields-differ', ts=ts, model=m, c=c.t)
+                    cands.add(kernel='b', role='too-large-error-fields-differ', stable_height=sh.t, ts=ts, model=m, c=c.t)
             elif uo['err'] == 'AddressForWrongNetwork':
                 if uo['fields'][0].variant != bo['fields'][0].variant:
-                    cands.add(kernel='b', role='wrong-network-expected-differs', ts=ts, model=mdl(), c=c.t)
+                    cands.add(kernel='b', role='wrong-network-expected-differs', stable_height=sh.t, ts=ts, model=mdl(), c=c.t)
             return
         seen.add('ok')
         if applied != added:
-            cands.add(kernel='a', role='cut-mismatch', ts=ts, model=mdl(), c=c.t, best=best, utxos_blocks=list(applied), balance_blocks=list(added))
+            cands.add(kernel='a', role='cut-mismatch', stable_height=sh.t, ts=ts, model=mdl(), c=c.t, best=best, utxos_blocks=list(applied), balance_blocks=list(added))
 
     explore(prog, scenario, stats=st, on_panic=lambda it, e: cands.add(
         kernel='a', role='trap', ts=ts, model=it.model_ if it.feasible() else None, msg=str(e), c=z3.Int('c')))
@@ -232,8 +232,12 @@ def confirm(cand, known):
     diffs = {int(k): v for k, v in cand['diffs'].items()}
     c = cand.get('c') if isinstance(cand.get('c'), int) else 0
     q = dict(addr=7, min_conf=c) if c else dict(addr=7)
-    ops = native_ops(ts, diffs, extra=[dict(op='main_chain'), dict(op='utxos', **q), dict(op='balance', **q),
-                                       dict(op='utxos', address='notanaddress', min_conf=c), dict(op='balance', address='notanaddress', min_conf=c)])
+    # blocks below the anchor: the counterexample's stable height (capped) is reproduced with a natively stabilised prefix
+    shv = cand.get('stable_height')
+    prefix = min(shv, 3) if isinstance(shv, int) and shv > 0 else 0
+    ops = native_ops(ts, diffs, thr=1000 if prefix else 2, stable_prefix=prefix,
+                     extra=[dict(op='main_chain'), dict(op='utxos', **q), dict(op='balance', **q),
+                            dict(op='utxos', address='notanaddress', min_conf=c), dict(op='balance', address='notanaddress', min_conf=c)])
     res = C.run_native([dict(ops=ops)], tag='c05cx')[0]
     mc, ut, bal, ut_bad, bal_bad = res[-5:]
     problems = []
